@@ -51,7 +51,15 @@ _RE_MATCH = type(_re_mod.match("", ""))
 _RE_PATTERN = type(_re_mod.compile(""))
 SAFE_METHODS[_RE_MATCH] = {"group", "groups", "groupdict", "start", "end", "span", "expand"}
 SAFE_METHODS[_RE_PATTERN] = {"match", "search", "fullmatch", "findall", "finditer", "sub", "subn", "split"}
-_SAFE_STATIC = {("int", "from_bytes"): (int, int.from_bytes), ("bytes", "fromhex"): (bytes, bytes.fromhex), ("str", "join"): (str, str.join)}
+def _int_new(c: Any = None, v: Any = 0, *a: Any) -> int:
+    """int.__new__(cls, value): the models carry scalar values as plain integers, whatever int subclass the code names."""
+    if isinstance(v, (str, bytes)) or a:
+        return int(v, *a)
+    return int(v)
+
+
+_SAFE_STATIC = {("int", "from_bytes"): (int, int.from_bytes), ("bytes", "fromhex"): (bytes, bytes.fromhex), ("str", "join"): (str, str.join),
+                ("int", "__new__"): (int, _int_new)}
 _BIN = {
     ast.Add: lambda a, b: a + b, ast.Sub: lambda a, b: a - b, ast.Mult: lambda a, b: a * b, ast.FloorDiv: lambda a, b: a // b,
     ast.Mod: lambda a, b: a % b, ast.Pow: lambda a, b: a ** b if not (isinstance(b, int) and b > 4096) else (_ for _ in ()).throw(Refused("pow too large")),
